@@ -52,7 +52,7 @@ ASSUMPTIONS = [
     "context switches inside vector frames",
 ]
 SHARD_TIMEOUT = {"quick": 1200, "thorough": 10800}
-CONFIGS = ["default", "seterr-raise", "seterr-warn+warnings-error", "errcall+print", "seterr-ignore+filters"]
+CONFIGS = ["default", "seterr-raise", "seterr-warn+warnings-error", "errcall+print", "seterr-ignore+filters", "registered-awkward"]
 
 
 def plan(tier, seed):
@@ -74,6 +74,13 @@ def plan(tier, seed):
 
 def apply_config(cfg):
     if cfg == "default":
+        return
+    if cfg == "registered-awkward":
+        # the whole sweep again in the *registered* Awkward mode (behaviors come from the global registry)
+        import vector
+
+        vector.register_awkward()
+        numpy.seterr(all="warn")
         return
     if cfg == "seterr-raise":
         numpy.seterr(all="raise")
